@@ -18,9 +18,19 @@ export CARGO_NET_OFFLINE=true
 demo_clean=$(cargo test --offline --test seed_demo 2>&1 | grep -c "test result: ok")
 git apply "$MD/patch.diff" || { echo "patch does not apply"; exit 2; }
 demo_mut=$(cargo test --offline --test seed_demo 2>&1 | grep -c "test result: FAILED\|panicked\|error")
+demo_variant="default features, dev profile"
+if [ "$demo_mut" = "0" ]; then
+  # some changes show only with the `intrinsics` feature or only in release builds
+  demo_mut=$(cargo test --offline --features intrinsics --test seed_demo 2>&1 | grep -c "test result: FAILED\|panicked\|error")
+  demo_variant="--features intrinsics"
+fi
+if [ "$demo_mut" = "0" ]; then
+  demo_mut=$(cargo test --offline --release --test seed_demo 2>&1 | grep -c "test result: FAILED\|panicked\|error")
+  demo_variant="--release"
+fi
 rm -f tests/seed_demo.rs; rmdir tests 2>/dev/null
 suite=$(cargo test --workspace --no-fail-fast --offline 2>&1 | grep "test result" | head -2 | tr '\n' ' ')
-echo "demo passes on clean: $demo_clean ; demo fails on mutant: $demo_mut ; suite with mutant: $suite"
+echo "demo passes on clean: $demo_clean ; demo fails on mutant: $demo_mut ($demo_variant) ; suite with mutant: $suite"
 results=""
 for P in "$@"; do
   cd "$ROOT"
@@ -35,6 +45,6 @@ done
 cd "$WT" && git checkout -q -- src && rm -rf tests
 cat > "$OUT/meta.json" <<EOM
 {"id": "$ID", "worktree_commit": "$(git rev-parse --short HEAD)",
- "confirmed": {"demo_passes_on_clean": $demo_clean, "demo_fails_on_mutant": $demo_mut, "suite_with_mutant": "$suite"},
+ "confirmed": {"demo_passes_on_clean": $demo_clean, "demo_fails_on_mutant": $demo_mut, "demo_build": "$demo_variant", "suite_with_mutant": "$suite"},
  "checks": [${results%,}]}
 EOM
